@@ -108,7 +108,7 @@ let bit b = if b then "1" else "0"
 let bits_s = function [] -> "." | l -> String.concat "" (List.map bit l)
 let si = string_of_int
 
-let print_file (f : file) : string =
+let print_file_opt (skip_offsets : bool) (f : file) : string =
   let t = ref [] in
   let add s = t := s :: !t in
   add "F"; add (si (List.length f.f_batches));
@@ -120,13 +120,14 @@ let print_file (f : file) : string =
          | None -> add "N"
          | Some h -> add "H"; add (si (int_of_sec h.h_sec)); add (si (int_of_scc h.h_scc)));
         add (bit b.b_control); add (bit b.b_adv); add (bit b.b_offset);
-        add (si (List.length b.b_entries));
+        let es = if skip_offsets then List.filter (function Some e -> not e.e_off | None -> true) b.b_entries else b.b_entries in
+        add (si (List.length es));
         List.iter (function
             | None -> add "N"
             | Some e ->
               add "E"; add (si (int_of_cat e.e_cat)); add (si (int_of_nat e.e_code));
               add (bit e.e_a02 ^ bit e.e_a98 ^ bit e.e_a98r ^ bit e.e_a99 ^ bit e.e_a99d ^ bit e.e_a99c ^ bit e.e_off);
-              add (bits_s e.e_a05)) b.b_entries;
+              add (bits_s e.e_a05)) es;
         add (si (List.length b.b_adventries));
         List.iter (function
             | None -> add "N"
@@ -148,6 +149,8 @@ let print_file (f : file) : string =
             add (bits_s e.ie_a17); add (bits_s e.ie_a18)) b.ib_entries)
     f.f_iat;
   String.concat " " (List.rev !t)
+
+let print_file = print_file_opt false
 
 let class_name = function
   | ShWf -> "wf" | ShNilBatcher -> "nil-batcher" | ShNilHeader -> "nil-batch-header" | ShNilControl -> "nil-batch-control"
@@ -216,7 +219,7 @@ let parse_routes () =
 let http_run rs o =
   match serve rs [] o with
   | OK (_, r, _) | ERR (r, _) ->
-    ("OK", String.concat " | " (List.sort compare (List.map (fun (_, f) -> print_file f) r)))
+    ("OK", String.concat " | " (List.sort compare (List.map (fun (_, f) -> print_file_opt true f) r)))
   | PANIC -> ("PANIC", "-")
 
 let split_at_hash l =
@@ -294,32 +297,50 @@ let () =
                if found <> "none" then impl else "MODEL=" ^ m ^ (if m = impl then " shape " ^ mshape else "")
              end else begin
                let ops = List.map op_of_string (String.split_on_char ',' ops) in
-               let run o = (match ops with
-                   | [x] -> verdict (run_op x f o)
-                   | xs -> verdict (run_ops xs f o)) in
-               let m = run [] in
-               (* OK must be reproduced; ERR may stand for a data-dependent error the tried oracles do not
-                  reach (two failing checks), so a model run without panic admits it; PANIC must be reproduced *)
-               let ok v = (v = impl) || (impl = "ERR" && v = "OK") in
-               let found =
-                 if m = impl then "exact"
-                 else if ok m then "abstracted"
-                 else begin
-                   let rec go k = if k >= max_single then false else if ok (run (single k)) then true else go (k + 1) in
-                   if go 0 then "oracle"
-                   else begin
-                     (* call sequences: one failing check per operation *)
-                     let rec go2 j k =
-                       if j >= max_pair then false
-                       else if k >= max_pair then go2 (j + 1) (j + 2)
-                       else if ok (run (pair j k)) then true else go2 j (k + 1) in
-                     if go2 0 1 then "oracle2" else "none"
-                   end
-                 end in
+               let impls = String.split_on_char ',' impl in
+               (* operation by operation: an oracle that reproduces the verdict of this operation is searched
+                  (all-true, one false bit, two false bits); the next operation continues on the state the
+                  model reached.  OK must be reproduced; ERR may stand for a data-dependent error the tried
+                  oracles do not reach, so a run without panic admits it; PANIC must be reproduced. *)
+               let ok i v = (v = i) || (i = "ERR" && v = "OK") in
+               let rank = function "exact" -> 0 | "abstracted" -> 1 | "oracle" -> 2 | _ -> 3 in
+               let budget = ref 60000 in
+               (* backtracking over the oracles that reproduce each operation: different oracles may leave the
+                  model in different states (an error before or after File.IsADV installed a header) *)
+               let rec go xs is st worst =
+                 match xs, is with
+                 | x :: xt, i :: it ->
+                   let attempt o how =
+                     if !budget <= 0 then None else begin
+                       decr budget;
+                       let r = run_op x st o in
+                       let v = verdict r in
+                       if not (ok i v) then None
+                       else begin
+                         let how = if how = "exact" && v <> i then "abstracted" else how in
+                         let worst = if rank how > rank worst then how else worst in
+                         match r with
+                         | OK (_, st', _) | ERR (st', _) -> go xt it st' worst
+                         | PANIC -> Some worst
+                       end
+                     end in
+                   let rec singles k = if k >= max_single then None else (match attempt (single k) "oracle" with Some w -> Some w | None -> singles (k + 1)) in
+                   let rec pairs j k =
+                     if j >= max_pair then None else if k >= max_pair then pairs (j + 1) (j + 2)
+                     else (match attempt (pair j k) "oracle2" with Some w -> Some w | None -> pairs j (k + 1)) in
+                   (match attempt [] "exact" with
+                    | Some w -> Some w
+                    | None -> (match singles 0 with Some w -> Some w | None -> pairs 0 1))
+                 | _, _ -> Some worst in
+               let (m, found) =
+                 (match go ops impls f "exact" with
+                  | Some w -> ((match List.rev impls with i :: _ -> i | [] -> "OK"), w)
+                  | None -> (verdict (run_ops ops f []), "none")) in
+               let impl = (match List.rev impls with i :: _ -> i | [] -> "OK") in
                count (m ^ "/" ^ impl ^ "/" ^ found);
                count ("class " ^ cls);
                Buffer.add_string detail (Printf.sprintf "case %s %s %s %s\n" id cls m found);
-               if found <> "none" then impl else "MODEL=" ^ m
+               if found <> "none" then String.concat "," impls else "MODEL=" ^ m
              end
            with Bad s -> "BAD " ^ s | Invalid_argument s -> "BAD " ^ s) in
         print_string (id ^ " " ^ out ^ "\n")
